@@ -621,7 +621,7 @@ Definition av_inv (a:aval) : bool :=
   end.
 
 Definition av_opt_ok (p:option bytes) : bool :=
-  match p with Some b => bytes_ok b && (0 <? len b) && (len b <? 65536) | None => true end.
+  match p with Some b => bytes_ok b && (0 <? len b) && (len b + 4 <? 65536) | None => true end.
 Fixpoint av_nodup (l:list N) : bool :=
   match l with [] => true | x :: r => negb (existsb (N.eqb x) r) && av_nodup r end.
 Definition av_ascii_print (s:bytes) : bool := forallb (fun b => (0x20 <=? b) && (b <=? 0x7E)) s.
@@ -633,9 +633,13 @@ Definition av_trimmed (cps:list N) : bool :=
 Definition av_quoted_ok (s:bytes) : bool :=
   match av_utf8 s with Some cps => av_quoted_text cps && av_trimmed cps | None => false end.
 (* an Algorithm: id is a u16; parameters absent or non-empty (`Some([])` and `None` are the same bytes on the
-   wire and decode as `None`) and shorter than 2^16.  Inner padding is written between the entries of a
+   wire and decode as `None`) and such that the entry fits a TLV (4 + length < 2^16; the decoder's u16 addition
+   would overflow beyond that).  Inner padding is written between the entries of a
    PASSWORD-ALGORITHMS value and skipped by the decoder, so no alignment condition is needed. *)
 Definition av_alg_ok (e:N * option bytes) : bool := (fst e <? 65536) && av_opt_ok (snd e).
+
+(* the header of the message being coded decodes (needed by the XOR address kinds only) *)
+Definition av_hdr_ok (hdr:bytes) : bool := match av_dec_header hdr with VOk _ => true | _ => false end.
 
 (* the documented limits: under `av_wf ty a` encoding succeeds (given room) and decoding returns `a` *)
 Definition av_wf (ty:N) (a:aval) : bool :=
